@@ -17,7 +17,8 @@ mkdir -p bin "$OUT/evidence/parts" "$OUT/replays"
 # parts of each property: engine[:part]
 parts_of() {
   case "$1" in
-    C01|C03|C04|C05|C07|C08|C09) echo "pmc" ;;
+    C01|C03|C04|C05|C07|C08) echo "pmc" ;;
+    C09) echo "pmc:protocol enum:extractor" ;;
     C10) echo "pmc:protocol vsched:runtime" ;;
     C11) echo "pmc:protocol vsched:runtime" ;;
     C02|C06|C18|C20) echo "enum" ;;
